@@ -82,6 +82,10 @@ pub struct Case {
     /// low-level solvers only: build the solver with dense_output(false)
     #[serde(default)]
     pub low_nodense: bool,
+    /// low-level explicit solvers only: at every callback redo the step from (xold, yold) with a fresh solver and
+    /// compare its interpolant with the one handed out (the interpolant of a step depends on that step alone)
+    #[serde(default)]
+    pub probe_restart: bool,
     /// inverse symmetry applied to recorded (t, y) before digesting: "id" | "reflect" | "scale:k" | "copies:m"
     #[serde(default = "idmap")]
     pub map: String,
@@ -128,6 +132,8 @@ pub enum Ev {
     Jac { t: f64 },
     Evt { t: f64 },
     Cb { k: usize, xold: f64, x: f64, y: Vec<f64>, interp: Option<InterpFacts>, ret: String },
+    /// a decision point reported by the solver through the verification hook `ivp::verif_trace`
+    Hook { tag: &'static str, v: f64 },
 }
 
 #[derive(Clone, Debug)]
@@ -138,6 +144,8 @@ pub struct InterpFacts {
     pub ord: i64,
     /// raw step size of the interpolant
     pub h: f64,
+    /// restart probe: largest relative difference to the interpolant of the same step redone by a fresh solver (-1: not probed)
+    pub rs_err: f64,
     pub l_err: f64, // max_i |interp(xold)_i - yold_i| / scale_i
     pub r_err: f64,
     pub finite: bool,
@@ -176,6 +184,19 @@ impl<'a, 'b> IVP for Shim<'a, 'b> {
 }
 
 impl<'a> Instr<'a> {
+    /// append an event; decision points the solver reported since the previous event come first
+    pub fn push(&self, e: Ev) {
+        self.drain_hooks();
+        self.log.borrow_mut().push(e);
+    }
+    pub fn drain_hooks(&self) {
+        if ivp::verif_trace::len() > 0 {
+            let hs = ivp::verif_trace::stop();
+            ivp::verif_trace::start();
+            let mut log = self.log.borrow_mut();
+            for (tag, v) in hs { log.push(Ev::Hook { tag, v }); }
+        }
+    }
     pub fn new(case: &'a Case) -> Self {
         Instr { case, log: RefCell::new(Vec::new()), injac: Cell::new(false), n_ode: Cell::new(0),
                 budget: case.budget.unwrap_or(BUDGET_DEFAULT), mass_calls: Cell::new(0) }
@@ -189,14 +210,14 @@ impl<'a> IVP for Instr<'a> {
         if n > self.budget {
             panic!("VERIF-BUDGET");
         }
-        self.log.borrow_mut().push(Ev::Ode { t: x, y: y.to_vec(), injac: self.injac.get() });
+        self.push(Ev::Ode { t: x, y: y.to_vec(), injac: self.injac.get() });
         self.case.problem.f(x, y, d);
     }
     fn n_events(&self) -> usize {
         self.case.events.len()
     }
     fn events(&self, x: f64, y: &[f64], out: &mut [f64]) {
-        self.log.borrow_mut().push(Ev::Evt { t: x });
+        self.push(Ev::Evt { t: x });
         for (i, e) in self.case.events.iter().enumerate() {
             out[i] = self.case.problem.event(e, x, y);
         }
@@ -219,7 +240,7 @@ impl<'a> IVP for Instr<'a> {
         c
     }
     fn jac(&self, x: f64, y: &[f64], j: &mut Matrix) {
-        self.log.borrow_mut().push(Ev::Jac { t: x });
+        self.push(Ev::Jac { t: x });
         if self.case.jac == "user" {
             self.case.problem.jac(x, y, j);
         } else {
@@ -255,6 +276,22 @@ impl<'a> IVP for Instr<'a> {
                 let k: i32 = s[5..].parse().unwrap();
                 for i in 0..n {
                     m[(i, i)] = (2.0f64).powi(k);
+                }
+            }
+            // nonsingular bidiagonal / tridiagonal masses (entries only inside the band the storage must provide)
+            "lowbi" | "upbi" | "tri" => {
+                for i in 0..n {
+                    m[(i, i)] = 1.0;
+                    if self.case.mass != "upbi" && i >= 1 { m[(i, i - 1)] = 0.5; }
+                    if self.case.mass != "lowbi" && i + 1 < n { m[(i, i + 1)] = 0.25; }
+                }
+            }
+            // diagonal mass with the listed entries (zeros allowed: differential-algebraic system)
+            s if s.starts_with("diag:") => {
+                let d: Vec<f64> = s[5..].split(',').map(|x| x.parse().unwrap()).collect();
+                for i in 0..n {
+                    let v = d[i % d.len()];
+                    if v != 0.0 || !matches!(m.storage, MatrixStorage::Identity) { m[(i, i)] = v; }
                 }
             }
             _ => {}
@@ -306,7 +343,22 @@ impl<'a, 'b> SolOut for RecSolOut<'a, 'b> {
             }
             let (_, hstep) = ip.step_params();
             let ord = if bdf { let c = ip.to_segment().cont; if c.len() >= 7 { c[6].round() as i64 } else { 0 } } else { 0 };
-            InterpFacts { lo, hi, ord, h: hstep, l_err, r_err, finite }
+            let mut rs_err = -1.0;
+            if self.instr.case.probe_restart && self.yold.len() == n && k >= 1 && matches!(self.instr.case.method.as_str(), "RK4" | "RK23" | "DOPRI5" | "DOP853") {
+                let ts: Vec<f64> = [0.25, 0.5, 0.75].iter().map(|th| xold + th * (*x - xold)).collect();
+                let mine: Vec<Vec<f64>> = ts.iter().map(|t| { let mut v = vec![0.0; n]; ip.interpolate(*t, &mut v); v }).collect();
+                if let Some(theirs) = restart_step(self.instr.case, xold, &self.yold, *x, &ts) {
+                    rs_err = 0.0;
+                    for (a, b) in mine.iter().zip(theirs.iter()) {
+                        for i in 0..n {
+                            let sc = a[i].abs().max(b[i].abs()).max(1e-300);
+                            let d = (a[i] - b[i]).abs() / sc;
+                            if d.is_nan() { if !(a[i].is_nan() && b[i].is_nan()) { rs_err = f64::INFINITY; } } else if d > rs_err { rs_err = d; }
+                        }
+                    }
+                }
+            }
+            InterpFacts { lo, hi, ord, h: hstep, rs_err, l_err, r_err, finite }
         });
         let act = self.script.iter().find(|s| s.k == k).map(|s| s.action.clone());
         let mut ret = ControlFlag::Continue;
@@ -336,7 +388,7 @@ impl<'a, 'b> SolOut for RecSolOut<'a, 'b> {
             _ => {}
         }
         // the state logged is the one the solver continues from (after modification)
-        self.instr.log.borrow_mut().push(Ev::Cb { k, xold, x: *x, y: y.to_vec(), interp: facts, ret: rets.to_string() });
+        self.instr.push(Ev::Cb { k, xold, x: *x, y: y.to_vec(), interp: facts, ret: rets.to_string() });
         self.yold = y.to_vec();
         ret
     }
@@ -394,10 +446,46 @@ fn err_name(e: &ivp::error::Error) -> String {
     format!("Err:{}", head.replace('(', "/"))
 }
 
+/// Redo one accepted step (xold, yold) -> x with a freshly built low-level solver of the same method and options and
+/// return its interpolant at the given times (None if the fresh solver does not take exactly that step).
+fn restart_step(case: &Case, xold: f64, yold: &[f64], x: f64, ts: &[f64]) -> Option<Vec<Vec<f64>>> {
+    struct P<'a>(&'a Problem);
+    impl<'a> IVP for P<'a> {
+        fn ode(&self, t: f64, y: &[f64], d: &mut [f64]) { self.0.f(t, y, d) }
+    }
+    struct Grab<'a> { ts: &'a [f64], out: Vec<Vec<f64>>, steps: usize, xs: f64 }
+    impl<'a> SolOut for Grab<'a> {
+        fn solout(&mut self, xo: f64, xn: &mut f64, y: &mut [f64], ip: Option<&StepInterpolant<'_>>) -> ControlFlag {
+            if xo == *xn { return ControlFlag::Continue; }
+            self.steps += 1;
+            self.xs = *xn;
+            if self.steps == 1 {
+                if let Some(ip) = ip {
+                    for t in self.ts { let mut v = vec![0.0; y.len()]; ip.interpolate(*t, &mut v); self.out.push(v); }
+                }
+            }
+            ControlFlag::Interrupt
+        }
+    }
+    let p = P(&case.problem);
+    let mut g = Grab { ts, out: Vec::new(), steps: 0, xs: xold };
+    let h = x - xold;
+    let (rt, at) = (tol(&case.rtol, case.tol_vec), tol(&case.atol, case.tol_vec));
+    let r = catch(|| match case.method.as_str() {
+        "RK4" => { let s = RK4::builder().dense_output(true).build(); s.solve(&p, xold, yold, x, h, Some(&mut g)).is_ok() }
+        "RK23" => RK23::builder().first_step(h).dense_output(true).build().solve(&p, xold, yold, x, rt, at, Some(&mut g)).is_ok(),
+        "DOPRI5" => DOPRI5::builder().first_step(h).dense_output(true).build().solve(&p, xold, yold, x, rt, at, Some(&mut g)).is_ok(),
+        _ => DOP853::builder().first_step(h).dense_output(true).build().solve(&p, xold, yold, x, rt, at, Some(&mut g)).is_ok(),
+    });
+    // only a fresh run whose first accepted step is the same step is comparable
+    if r.ok() == Some(true) && g.steps == 1 && g.out.len() == ts.len() && (g.xs - x).abs() <= 4.0 * f64::EPSILON * x.abs().max(xold.abs()) { Some(g.out) } else { None }
+}
+
 /// Execute one case on the real code.
 pub fn execute(case: &Case, instr: &Instr) -> Outcome {
     let n = case.y0.len();
     let bw = case.problem.bandwidth();
+    ivp::verif_trace::start();
     let r = catch(|| {
         if case.api == "solve_ivp" {
             let mut o = Options::builder()
@@ -452,6 +540,8 @@ pub fn execute(case: &Case, instr: &Instr) -> Outcome {
             }
         }
     });
+    instr.drain_hooks();
+    let _ = ivp::verif_trace::stop();
     match r {
         Ok(o) => o,
         Err(m) => {
@@ -532,6 +622,7 @@ pub fn trace(case: &Case, instr: &Instr, out: &Outcome) -> Vec<Value> {
     }
     for e in log.iter() {
         match e {
+            Ev::Hook { .. } => {}
             Ev::Ode { t, .. } | Ev::Jac { t } | Ev::Evt { t } => rk.add(*t),
             Ev::Cb { xold, x, interp, .. } => {
                 rk.add(*xold);
@@ -560,7 +651,7 @@ pub fn trace(case: &Case, instr: &Instr, out: &Outcome) -> Vec<Value> {
         "m": {"x0_lo": rk.rank(x0_lo), "xend_lo": rk.rank(xend_lo), "xend_hi": rk.rank(xend_hi)},
         "teval": case.t_eval.as_ref().map(|v| v.iter().map(|t| tj(*t)).collect::<Vec<_>>()).unwrap_or_default(),
         "hasT": case.t_eval.is_some(),
-        "hasFs": case.first_step.is_some(), "hasMs": case.max_step.is_some(),
+        "hasFs": case.first_step.is_some(), "hasMs": case.max_step.is_some(), "hasMin": case.min_step.map_or(false, |m| m != 0.0),
         "maxsteps": case.max_steps.map(|v| v as i64).unwrap_or(-1),
         "dense": case.dense, "lowdense": !case.low_nodense,
         "events": case.events.iter().map(|e| json!({"dir": e.dir, "term": e.term})).collect::<Vec<_>>(),
@@ -617,19 +708,21 @@ pub fn trace(case: &Case, instr: &Instr, out: &Outcome) -> Vec<Value> {
         if elide && idx == KEEP {
             let mid = &log[KEEP..nlog - KEEP];
             let (mut n_ode, mut n_odej, mut n_jac, mut n_ev, mut n_cb) = (0usize, 0usize, 0usize, 0usize, 0usize);
+            let mut rs_bad = 0usize;
             let (mut rmin, mut rmax) = (i64::MAX, i64::MIN);
             for m in mid {
                 let r = match m {
                     Ev::Ode { t, injac, .. } => { if *injac { n_odej += 1 } else { n_ode += 1 }; rk.rank(*t) }
                     Ev::Jac { t } => { n_jac += 1; rk.rank(*t) }
                     Ev::Evt { t } => { n_ev += 1; rk.rank(*t) }
-                    Ev::Cb { x, .. } => { n_cb += 1; rk.rank(*x) }
+                    Ev::Cb { x, interp, .. } => { n_cb += 1; if interp.as_ref().map_or(false, |f| f.rs_err > 1e-9) { rs_bad += 1; } rk.rank(*x) }
+                    Ev::Hook { .. } => continue,
                 };
                 rmin = rmin.min(r);
                 rmax = rmax.max(r);
             }
             n_plain_ode += n_ode;
-            lines.push(json!({"e": "gap", "n_ode": n_ode, "n_odej": n_odej, "n_jac": n_jac, "n_ev": n_ev, "n_cb": n_cb, "rmin": rmin, "rmax": rmax}));
+            lines.push(json!({"e": "gap", "n_ode": n_ode, "n_odej": n_odej, "n_jac": n_jac, "n_ev": n_ev, "n_cb": n_cb, "rs_bad": rs_bad, "rmin": rmin, "rmax": rmax}));
         }
         if elide && idx >= KEEP && idx < nlog - KEEP {
             continue;
@@ -646,17 +739,21 @@ pub fn trace(case: &Case, instr: &Instr, out: &Outcome) -> Vec<Value> {
             }
             Ev::Jac { t } => lines.push(json!({"e": "jac", "r": rk.rank(*t)})),
             Ev::Evt { t } => lines.push(json!({"e": "ev", "r": rk.rank(*t)})),
+            // decision points of the solver's main loop (values classified here: the trace carries no floats)
+            Ev::Hook { tag, v } => lines.push(json!({"e": "hk", "t": tag, "small": *v < 0.001, "ge1": *v >= 1.0, "le1": *v <= 1.0,
+                                                     "n": if v.is_finite() && v.fract() == 0.0 && v.abs() < 1e9 { *v as i64 } else { -1 }})),
             Ev::Cb { k, xold, x, y, interp, ret } => {
                 let contig = contig_of[idx];
                 let prev_h = prev_h_of[idx];
                 let ip = interp.as_ref().map(|f| json!({
                     "lo": tj(f.lo), "hi": tj(f.hi),
                     "b_ok": (f.lo - xold.min(*x)).abs() <= ulps(scale.max(f.lo.abs()), 8.0) && (f.hi - xold.max(*x)).abs() <= ulps(scale.max(f.hi.abs()), 8.0),
+                    "rs_ok": !(f.rs_err > 1e-9), "rs": f.rs_err >= 0.0,
                     "l_ok": f.l_err <= 1.0 || !f.finite,
                     "r_ok": f.r_err <= 1.0 || !f.finite,
                     "ord": f.ord, "heq": prev_h.map(|p: f64| p.abs().to_bits() == f.h.abs().to_bits()).unwrap_or(false),
                     "lre": [if f.l_err > 0.0 { f.l_err.log10().floor() as i64 } else { -999 }, if f.r_err > 0.0 { f.r_err.log10().floor() as i64 } else { -999 }],
-                    "fin": f.finite})).unwrap_or(json!({"b_ok": true, "l_ok": true, "r_ok": true, "fin": true, "ord": 0, "heq": false}));
+                    "fin": f.finite})).unwrap_or(json!({"b_ok": true, "rs_ok": true, "rs": false, "l_ok": true, "r_ok": true, "fin": true, "ord": 0, "heq": false}));
                 lines.push(json!({"e": "cb", "k": k, "xold": tj(*xold), "x": tj(*x), "d": dg(idx, *x, y), "y": toks(y), "contig": contig,
                                   "fin": y.iter().all(|v| v.is_finite()), "ip": ip, "hasip": interp.is_some(), "ret": ret}));
             }
@@ -848,8 +945,36 @@ fn ret_line(case: &Case, s: &Solution, rk: &Ranker, fs_fact: Value, dir: f64, ti
             }
         }
     }
+    // differential-algebraic problems: the algebraic constraint holds at every stored sample, the run succeeds and
+    // the differential components agree with the reduced ordinary system integrated by DOP853 at 1e-11
+    let mut dae = json!({"has": false, "res_ok": true, "solved": true, "ref_ok": true});
+    if case.problem.constraint(&case.y0).is_some() && case.problem.copies == 1 {
+        let thr = 1.0e3 * (case.rtol[0] + case.atol[0]);
+        let res_ok = s.y.iter().all(|y| case.problem.constraint(y).map_or(true, |c| c.abs() <= thr));
+        let solved = s.status == ivp::status::Status::Success;
+        let mut ref_ok = true;
+        if solved {
+            struct Red(Problem);
+            impl IVP for Red {
+                fn ode(&self, x: f64, y: &[f64], d: &mut [f64]) { self.0.f(x, y, d) }
+            }
+            let red = Red(Problem::new("dae3red", 0.0));
+            let (u0, v0) = case.problem.dae_uv(&case.y0).unwrap();
+            let o = Options::builder().method(Method::DOP853).rtol(Tolerance::Scalar(1e-11)).atol(Tolerance::Scalar(1e-13)).build();
+            let tl = *s.t.last().unwrap();
+            match catch(|| solve_ivp(&red, case.x0, tl, &[u0, v0], o)) {
+                Ok(Ok(r)) => {
+                    let (u, v) = case.problem.dae_uv(s.y.last().unwrap()).unwrap();
+                    let yr = r.y.last().unwrap();
+                    ref_ok = (u - yr[0]).abs() <= thr * (1.0 + yr[0].abs()) && (v - yr[1]).abs() <= thr * (1.0 + yr[1].abs());
+                }
+                _ => {}
+            }
+        }
+        dae = json!({"has": true, "res_ok": res_ok, "solved": solved, "ref_ok": ref_ok});
+    }
     json!({
-        "e": "ret", "id": case.id, "kind": "sol", "status": status_name(s.status), "tiny": tiny,
+        "e": "ret", "id": case.id, "kind": "sol", "status": status_name(s.status), "tiny": tiny, "dae": dae,
         "t": s.t.iter().map(|t| tj(*t)).collect::<Vec<_>>(),
         "ylen": s.y.len(), "ydims_ok": s.y.iter().all(|v| v.len() == n), "finite": finite,
         "yd": s.t.iter().zip(s.y.iter()).map(|(t, y)| mdigest(&case.map, *t, y)).collect::<Vec<_>>(),
